@@ -164,3 +164,124 @@ Qed.
 (* invalid nodes (only reachable after parse errors) evaluate to the dynamic unknown *)
 Lemma literal_invalid : value_of JInvalid = LOk LDynUnknown.
 Proof. reflexivity. Qed.
+
+(* ================================================================================== *)
+(* names compared as HCL strings: value_of_nf, for EVERY normalisation nf              *)
+(* ================================================================================== *)
+
+(* the plain mapping is the mapping at the identity normalisation *)
+Lemma value_of_nf_id : forall j, value_of_nf (fun k => k) j = value_of j.
+Proof.
+  fix IH 1. intros [| b | m e | s | vs | ms |]; try reflexivity.
+  - cbn [value_of_nf value_of]. f_equal.
+    induction vs as [|v vs IHvs]; [reflexivity|]. cbn [map]. rewrite IH, IHvs. reflexivity.
+  - cbn [value_of_nf value_of]. unfold object_of_nf, object_of.
+    assert (E : map (fun kv => (fst kv, value_of_nf (fun k => k) (snd kv))) ms
+                = map (fun kv => (fst kv, value_of (snd kv))) ms).
+    { induction ms as [|[k v] ms IHms]; [reflexivity|]. cbn [map fst snd]. rewrite IH, IHms. reflexivity. }
+    rewrite E. destruct (collect_attrs _) as [l|]; [|reflexivity]. rewrite map_id. reflexivity.
+Qed.
+
+Lemma mem_key_map nf k ks : mem_key k ks = true -> mem_key (nf k) (map nf ks) = true.
+Proof.
+  rewrite !mem_key_In. intro H. apply in_map. exact H.
+Qed.
+
+(* byte-identical duplicates are duplicates under every normalisation *)
+Lemma has_dup_map nf ks : has_dup ks = true -> has_dup (map nf ks) = true.
+Proof.
+  induction ks as [|k r IH]; [discriminate|]. cbn [has_dup map].
+  rewrite !orb_true_iff. intros [H|H]; [left; apply mem_key_map; exact H|right; apply IH; exact H].
+Qed.
+
+(* two names with the same normal form: a duplicate *)
+Lemma has_dup_nf_pair nf (pre mid post : list (list Z)) k1 k2 :
+  nf k1 = nf k2 -> has_dup (map nf (pre ++ k1 :: mid ++ k2 :: post)) = true.
+Proof.
+  intro E. induction pre as [|p pre IH].
+  - cbn [app map has_dup]. apply orb_true_iff. left. apply mem_key_In.
+    rewrite map_app. apply in_or_app. right. cbn [map]. left. symmetry. exact E.
+  - cbn [app map has_dup]. apply orb_true_iff. right. exact IH.
+Qed.
+
+(* defining the same HCL string twice as a property name is an error *)
+Theorem duplicate_names_error_nf nf ms :
+  has_dup (map nf (map fst ms)) = true -> value_of_nf nf (JObj ms) = LError.
+Proof.
+  intro Hd. cbn [value_of_nf]. unfold object_of_nf.
+  destruct (collect_attrs (map (fun kv => (fst kv, value_of_nf nf (snd kv))) ms)) as [l|] eqn:E; [|reflexivity].
+  pose proof (collect_attrs_names _ _ E) as Hn. rewrite map_map in Hn. cbn [fst] in Hn.
+  change (map (fun x : list Z * jvalue => fst x) ms) with (map fst ms) in Hn.
+  rewrite Hn, Hd. reflexivity.
+Qed.
+
+(* in particular: two members, anywhere in the object, whose names have the same normal form *)
+Corollary equivalent_names_error nf pre mid post k1 v1 k2 v2 :
+  nf k1 = nf k2 -> value_of_nf nf (JObj (pre ++ (k1, v1) :: mid ++ (k2, v2) :: post)) = LError.
+Proof.
+  intro E. apply duplicate_names_error_nf.
+  replace (map fst (pre ++ (k1, v1) :: mid ++ (k2, v2) :: post))
+    with (map fst pre ++ k1 :: map fst mid ++ k2 :: map fst post)
+    by (rewrite map_app; cbn [map fst]; rewrite map_app; reflexivity).
+  apply has_dup_nf_pair. exact E.
+Qed.
+
+(* an object that evaluates has one attribute per member, names in source order, and the
+   names are pairwise different HCL strings: no member is silently dropped or merged *)
+Theorem literal_object_nf nf ms attrs : value_of_nf nf (JObj ms) = LOk (LObject attrs) ->
+  map fst attrs = map fst ms /\ NoDup (map nf (map fst ms)) /\ length attrs = length ms /\
+  map (fun kv => value_of_nf nf (snd kv)) ms = map (fun kv => LOk (snd kv)) attrs.
+Proof.
+  cbn [value_of_nf]. unfold object_of_nf.
+  destruct (collect_attrs (map (fun kv => (fst kv, value_of_nf nf (snd kv))) ms)) as [l|] eqn:E; [|discriminate].
+  destruct (has_dup (map nf (map fst l))) eqn:Ed; [discriminate|]. intro H; inversion H; subst l.
+  pose proof (collect_attrs_names _ _ E) as Hn. rewrite map_map in Hn. cbn [fst] in Hn.
+  change (map (fun x : list Z * jvalue => fst x) ms) with (map fst ms) in Hn.
+  split; [exact Hn|]. split; [rewrite <- Hn; apply has_dup_NoDup; exact Ed|].
+  split; [rewrite <- (map_length fst attrs), Hn; apply map_length|].
+  apply collect_attrs_some in E.
+  assert (E' := f_equal (map snd) E). rewrite !map_map in E'. cbn [snd] in E'. exact E'.
+Qed.
+
+Lemma collect_none_mono (f g : jvalue -> lresult) vs :
+  (forall v, In v vs -> f v = LError -> g v = LError) ->
+  collect (map f vs) = None -> collect (map g vs) = None.
+Proof.
+  induction vs as [|v vs IH]; intros Hm; [discriminate|]. cbn [map collect].
+  destruct (f v) eqn:Ef.
+  - destruct (collect (map f vs)) eqn:Ec; [discriminate|]. intros _.
+    rewrite IH; [destruct (g v); reflexivity| |reflexivity].
+    intros x Hx. apply Hm. right. exact Hx.
+  - intros _. rewrite (Hm v (or_introl eq_refl) Ef). reflexivity.
+Qed.
+
+(* value_of_nf reports at least the errors of value_of: comparing names as HCL strings only
+   ADDS duplicate errors, whatever nf is *)
+Theorem value_of_nf_error_mono nf : forall j, value_of j = LError -> value_of_nf nf j = LError.
+Proof.
+  fix IH 1. intros [| b | m e | s | vs | ms |]; try discriminate.
+  - cbn [value_of value_of_nf]. unfold tuple_of.
+    destruct (collect (map value_of vs)) eqn:Ec; [discriminate|]. intros _.
+    rewrite (collect_none_mono value_of (value_of_nf nf) vs); [reflexivity| |exact Ec].
+    clear Ec. induction vs as [|v vs IHvs]; intros x [].
+    + subst x. apply IH.
+    + apply IHvs. assumption.
+  - cbn [value_of value_of_nf]. unfold object_of, object_of_nf.
+    destruct (collect_attrs (map (fun kv => (fst kv, value_of_nf nf (snd kv))) ms)) as [l'|] eqn:E'; [|reflexivity].
+    pose proof (collect_attrs_names _ _ E') as Hn'. rewrite map_map in Hn'. cbn [fst] in Hn'.
+    change (map (fun x : list Z * jvalue => fst x) ms) with (map fst ms) in Hn'.
+    destruct (collect_attrs (map (fun kv => (fst kv, value_of (snd kv))) ms)) as [l|] eqn:E.
+    + pose proof (collect_attrs_names _ _ E) as Hn. rewrite map_map in Hn. cbn [fst] in Hn.
+      change (map (fun x : list Z * jvalue => fst x) ms) with (map fst ms) in Hn.
+      destruct (has_dup (map fst l)) eqn:Ed; [|discriminate]. intros _.
+      rewrite Hn', <- Hn. rewrite (has_dup_map nf _ Ed). reflexivity.
+    + intros _. exfalso. clear Hn'. revert l' E' E.
+      induction ms as [|[k v] ms IHms]; intros l' E' E; [discriminate|].
+      cbn [map collect_attrs fst snd] in E, E'.
+      destruct (value_of_nf nf v) eqn:Ev'; [|discriminate].
+      destruct (collect_attrs (map (fun kv => (fst kv, value_of_nf nf (snd kv))) ms)) as [l2|] eqn:E2; [|discriminate].
+      destruct (value_of v) eqn:Ev.
+      * destruct (collect_attrs (map (fun kv => (fst kv, value_of (snd kv))) ms)) eqn:E3; [discriminate|].
+        eapply IHms; reflexivity.
+      * rewrite (IH v Ev) in Ev'. discriminate.
+Qed.
